@@ -64,6 +64,12 @@ def tasks(tier, seed):
                 # never converging (restol = -1): every step iterates to the budget, so later steps receive new values at every iteration
                 for pred in ((None,) if cfg[1] == 1 else (None, 'pfasst_burnin')):
                     T.append(('fresh',) + cfg + (jac, -1.0, pred))
+    # several fine sweeps per iteration: the residual reported after EVERY sweep is the defect of the values held then
+    for cfg, jac in ([((1, 1, 2, 'full_abs'), True), ((2, 1, 2, 'full_abs'), True), ((1, 2, 2, 'last_abs'), True)] if quick else
+                     [((1, 1, 3, 'full_abs'), True), ((2, 1, 2, 'full_abs'), True), ((2, 1, 2, 'full_rel'), False), ((1, 2, 2, 'last_abs'), True), ((2, 2, 2, 'full_abs'), True)]):
+        T.append(('fresh',) + cfg + (jac, -1.0, 'auto', 2))
+        if not quick:
+            T.append(('fresh',) + cfg + (jac, 1e-2, 'auto', 3))
     return T
 
 
